@@ -7,7 +7,7 @@ import re
 
 import z3
 
-from .core import (Adt, Tup, Cell, Ref, Opaque, Lazy, SeqObj, IterObj, MapObj, StrVal, Closure, FnPtr, Unsupported, NoModel,
+from .core import (Adt, Tup, Cell, Ref, Opaque, Lazy, SeqObj, IterObj, MapObj, StrVal, Closure, FnPtr, Transparent, Unsupported, NoModel,
                    PanicExc, tset, tput, tappend, TRAIL, undo, wrap, zint, conc_int, conc_bool, is_z3)
 from .mir import ENUMS, STRUCTS, INT_RANGES, base_ty, generic_args, split_top, strip_turbofish
 
@@ -90,6 +90,14 @@ def new_seq(ex, items, elem_ty="?", maxlen=None, name=None):
     maxlen = max(len(items), maxlen or 0)
     cells = [Cell(x) for x in items] + [Cell(None) for _ in range(maxlen - len(items))]
     return SeqObj(name or ex.fresh_name("seq"), elem_ty, cells, len(items), maxlen)
+
+
+def grow_seq(ex, s, limit=24):
+    """Vec growth: one more slot (trail-managed); a hard limit guards against unbounded loops"""
+    if s.max >= limit:
+        raise Unsupported("sequence %r grows beyond %d elements" % (s, limit))
+    tappend(s.items, Cell(None))
+    tset(s, "max", s.max + 1)
 
 
 def seq_len_cases(ex, seq):
@@ -227,6 +235,10 @@ def iter_next(ex, it):
             else:
                 for r in ex.call_closure(it.f, [o.fields[0]]):
                     yield Some(r)
+        return
+    if k == "mapf_deref":
+        for o in iter_next(ex, it.inner):
+            yield NONE if o.variant == "None" else Some(ex.deref1(o.fields[0]) if isinstance(o.fields[0], Ref) else o.fields[0])
         return
     if k == "filter":
         for o in iter_next(ex, it.inner):
@@ -519,6 +531,12 @@ def install(ex):
             else:
                 yield NONE
 
+    @model(r"^(std::option::)?Option::(cloned|copied)$", "Option::cloned / copied (Clone = identity on immutable data)")
+    def opt_cloned(ex, callee, args, rt):
+        o = args[0]
+        for v in enum_branch(ex, o, ["Some", "None"]):
+            yield Some(ex.deref1(variant_field(ex, o, "Some", 0))) if v == "Some" else NONE
+
     @model(r"^(std::option::)?Option::or$", "Option::or")
     def opt_or(ex, callee, args, rt):
         a, b = args
@@ -649,7 +667,7 @@ def install(ex):
             raise NoModel()
         yield z3.If(a <= b, a, b) if strip_turbofish(callee).endswith("min") else z3.If(a >= b, a, b)
 
-    @model(r"^<T as PartialEq>::(eq|ne)$|^<[A-Z] as PartialEq>::(eq|ne)$", "equality on an uninstantiated type parameter: true for the same object, otherwise an arbitrary boolean (over-approximation)")
+    @model(r"^<T as PartialEq>::(eq|ne)$|^<[A-QS-Z] as PartialEq>::(eq|ne)$", "equality on an uninstantiated type parameter: true for the same object, otherwise an arbitrary boolean (over-approximation)")
     def generic_eq(ex, callee, args, rt):
         a, b = ex.deref(args[0]), ex.deref(args[1])
         if a is b:
@@ -689,27 +707,27 @@ def install(ex):
         else:
             yield wrap(r, lo, hi)
 
-    @model(r"^<(i32|u32|usize|i64|u64|u8|char|isize) as PartialOrd>::partial_cmp$", "PartialOrd::partial_cmp on primitive integers/char")
+    @model(r"^<(&(mut )?)*(i32|u32|usize|i64|u64|u8|char|isize) as PartialOrd(<.*>)?>::partial_cmp$", "PartialOrd::partial_cmp on primitive integers/char")
     def prim_partial_cmp(ex, callee, args, rt):
         a = ex.deref(args[0])
         b = ex.deref(args[1])
         for i in ex.branches([a < b, a == b, a > b]):
             yield Some(Adt("Ordering", ("Less", "Equal", "Greater")[i], []))
 
-    @model(r"^<(i32|u32|usize|i64|u64|u8|char|isize) as Ord>::cmp$", "Ord::cmp on primitive integers/char")
+    @model(r"^<(&(mut )?)*(i32|u32|usize|i64|u64|u8|char|isize) as Ord>::cmp$", "Ord::cmp on primitive integers/char")
     def prim_cmp(ex, callee, args, rt):
         a = ex.deref(args[0])
         b = ex.deref(args[1])
         for i in ex.branches([a < b, a == b, a > b]):
             yield Adt("Ordering", ("Less", "Equal", "Greater")[i], [])
 
-    @model(r"^<(i32|u32|usize|i64|u64|u8|char|isize|bool) as PartialEq>::(eq|ne)$", "PartialEq on primitives")
+    @model(r"^<(&(mut )?)*(i32|u32|usize|i64|u64|u8|char|isize|bool) as PartialEq(<.*>)?>::(eq|ne)$", "PartialEq on primitives")
     def prim_eq(ex, callee, args, rt):
         a = ex.deref(args[0])
         b = ex.deref(args[1])
         yield (a == b) if callee.endswith("eq") else (a != b)
 
-    @model(r"^<(i32|u32|usize|i64|u64|u8|char|isize) as PartialOrd>::(lt|le|gt|ge)$", "PartialOrd lt/le/gt/ge on primitives")
+    @model(r"^<(&(mut )?)*(i32|u32|usize|i64|u64|u8|char|isize) as PartialOrd(<.*>)?>::(lt|le|gt|ge)$", "PartialOrd lt/le/gt/ge on primitives")
     def prim_ord(ex, callee, args, rt):
         a = ex.deref(args[0])
         b = ex.deref(args[1])
@@ -822,6 +840,21 @@ def install(ex):
     @model(r"^(std::rc::)?Rc::<?.*>?::new$|^Rc::new$|^(std::boxed::)?Box::new$|^Box::<.*>::new$", "Rc::new / Box::new = fresh identity cell")
     def rc_new(ex, callee, args, rt):
         yield Ref(Cell(args[0], ex.fresh_name("heap")))
+
+    @model(r"^(std::boxed::)?Box::(<.*>::)?new_uninit$", "Box::new_uninit (vec![..] lowering): a box holding an uninitialised slot")
+    def box_new_uninit(ex, callee, args, rt):
+        yield Ref(Cell(Transparent(None), ex.fresh_name("uninit")))
+
+    @model(r"box_assume_init_into_vec_unsafe$|^(std::boxed::)?Box::(<.*>::)?assume_init$", "Box<MaybeUninit<[T; N]>> -> Vec<T> / Box<[T; N]> (vec![..] lowering)")
+    def box_assume_init(ex, callee, args, rt):
+        w = ex.load(args[0]) if isinstance(args[0], Ref) else args[0]
+        v = w.v if isinstance(w, Transparent) else w
+        if v is None:
+            raise Unsupported("assume_init of a box that was never written")
+        if callee.rstrip().endswith("assume_init"):
+            yield Ref(Cell(v))
+        else:
+            yield v
 
     @model(r"^(std::rc::)?Rc::ptr_eq$|^Rc::<.*>::ptr_eq$", "Rc::ptr_eq = identity of the model cell")
     def rc_ptr_eq(ex, callee, args, rt):
@@ -1009,7 +1042,7 @@ def install(ex):
         s = ex.deref(args[0])
         for n in seq_len_cases(ex, s):
             if n >= s.max:
-                raise Unsupported("push beyond modelled capacity of " + repr(s))
+                grow_seq(ex, s)
             tset(s.items[n], "v", args[1])
             tset(s, "ln", n + 1)
             yield UNIT
@@ -1027,7 +1060,7 @@ def install(ex):
                     ex.panic("insertion index out of bounds", callee)
                     continue
                 if n >= s.max:
-                    raise Unsupported("insert beyond modelled capacity of " + repr(s))
+                    grow_seq(ex, s)
                 vals = [ex.seq_item(s, j).v for j in range(n)]
                 vals.insert(idx, args[2])
                 for j, v in enumerate(vals):
@@ -1173,6 +1206,11 @@ def install(ex):
     @model(r"as Iterator>::map$", "Iterator::map (lazy adaptor; closure = crate MIR)")
     def it_map(ex, callee, args, rt):
         yield IterObj("mapf", inner=make_iter(ex, args[0], False), f=args[1])
+
+    @model(r"as Iterator>::(cloned|copied)$", "Iterator::cloned / copied: the same items (Clone = identity on immutable data)")
+    def it_cloned(ex, callee, args, rt):
+        inner = make_iter(ex, args[0], False)
+        yield IterObj("mapf_deref", inner=inner)
 
     @model(r"as Iterator>::filter$", "Iterator::filter")
     def it_filter(ex, callee, args, rt):
